@@ -37,6 +37,17 @@ Proof.
     cbn [g_trace]. cbn [g_step]. rewrite IH. reflexivity.
 Qed.
 
+(* assemblies never modify the geometry: HeadMat after any number of HeadMat / other assemblies = HeadMat right away *)
+Definition is_assembly (o : gop) : bool := match o with GLoad _ => false | _ => true end.
+Lemma g_run_assemblies : forall fixed W h s, forallb is_assembly h = true -> g_run fixed W h s = s.
+Proof.
+  induction h as [|o h IH]; intros s H; simpl in *; auto.
+  apply andb_prop in H. destruct H as [Ho Hh]. destruct o; try discriminate; simpl; apply IH; auto.
+Qed.
+Lemma assemble_after_other_assemblies_lemma : forall fixed W h s, forallb is_assembly h = true ->
+  snd (g_step fixed W GHeadMat (g_run fixed W h s)) = snd (g_step fixed W GHeadMat s).
+Proof. intros. rewrite g_run_assemblies; auto. Qed.
+
 (* the tree as found.  Descriptor 0: a three-layer nested head (Head1: 126 vertices, 5 communicating pairs);
    descriptor 1: a head with a fully immersed mesh whose vertices 0,1,2 are invalid; descriptor 2: the same
    meshes loaded without conductivities. *)
